@@ -1,6 +1,6 @@
 """C02 - Far-field propagation puts the Fraunhofer field on the right output samples."""
 META = {
-    'level_text': 'Proof (reals idealised) for every field shape / parity / offset, wavefront shape, output shape, propagation-window shape, integer oversampling, per-axis input and output pixel scales, real tilt displacement (opaque behind Field.shift\'s contract) and both directions: propagate_dft appends, per input field, exactly one Field whose extent is (output extent or mask bounding box) intersected with the propagation window re-centred by fix(shift) - or nothing when that is empty - and whose every sample equals the unitary Fraunhofer sum with alpha_k = dx_k du_k/(lambda z oversample) evaluated at the plane coordinate field.insert / Wavefront.field give that sample, minus the full (integer + sub-pixel) displacement: the one-pixel parity obligation between dft2\'s output origin and the Field offset is discharged for all parities. Metadata (wavelength, focal length, du/oversample, shape*oversample, flipped ptype) is proved. Proved for wavefronts holding one field (with and without output mask) and two fields; the loop body is the same for every field.',
+    'level_text': 'Proof (reals idealised) for every field shape / parity / offset, wavefront shape, output shape, propagation-window shape, integer oversampling, per-axis input and output pixel scales, real tilt displacement (opaque behind Field.shift\'s contract) and both directions: propagate_dft appends, per input field, exactly one Field whose extent is (output extent or mask bounding box) intersected with the propagation window re-centred by fix(shift) - or nothing when that is empty - and whose every sample equals the unitary Fraunhofer sum with alpha_k = dx_k du_k/(lambda z oversample) evaluated at the plane coordinate field.insert / Wavefront.field give that sample, minus the full (integer + sub-pixel) displacement: the one-pixel parity obligation between dft2\'s output origin and the Field offset is discharged for all parities. Metadata (wavelength, focal length, du/oversample, shape*oversample, flipped ptype) is proved. Proved for wavefronts holding one field (with and without output mask) and two fields; the loop body is the same for every field. A bounded native stand-in (reported separately) compares masked and windowed propagations with non-rectangular output masks against a plain numpy matrix DFT.',
     'level_note': 'dft2 is used through its contract (proved under C01), array_extent / intersect / intersection_* / array_center through theirs (C06), boundary through its bounding-box contract (C20), Field.shift through an opaque function of its arguments (its value is the subject of C04). Assumes A2 (reals) and lemma L1 as in C01. Zero outside the window follows from insert\'s contract (C06) and Wavefront.field (C07).',
 }
 FUNCTIONS = ['lentil.propagate._dft_alpha', 'lentil.propagate.propagate_dft', 'lentil.propagate.propagate_dft#mask',
@@ -12,3 +12,8 @@ FUNCTIONS = ['lentil.propagate._dft_alpha', 'lentil.propagate.propagate_dft', 'l
              'lentil.field.insert#array', 'lentil.util.boundary']
 SHARDS = {'lentil.propagate.propagate_dft#2': 6, 'lentil.propagate.propagate_dft#mask': 3, 'lentil.field.insert#array': 3}
 LEMMAS = []
+
+
+def bounded(tier, seed):
+    from lvc.run import run_bounded
+    return run_bounded('bounded_C02.py', tier, seed)
